@@ -374,6 +374,13 @@ def rand_recipe(rng: random.Random, size="small", fixture=None, allow=("values",
             c0 = rng.randrange(C - 1)
             r1 = rng.randrange(r0, min(R, r0 + 3))
             c1 = rng.randrange(c0, min(C, c0 + 3))
+            if rng.random() < .25 and C <= 40:
+                # as wide as the table and two or more rows deep: the rows below the first consist of placeholders only
+                c0, c1 = 0, C - 1
+                r1 = min(R - 1, r0 + rng.randint(1, 2))
+            elif rng.random() < .1 and R <= 40:
+                r0, r1 = 0, R - 1
+                c1 = min(C - 1, c0 + 1)
             if (r0, c0) == (r1, c1):
                 continue
             cells = [(tb, r, c) for r in range(r0, r1 + 1) for c in range(c0, c1 + 1)]
